@@ -171,7 +171,17 @@ pub struct RunCfg {
 pub async fn run_history(mock: &Arc<Mock>, h: &History, cfg: &RunCfg) -> Outcome {
     let mut out = Outcome::default();
     let key = universe_key(h.namespace.as_deref(), h.label_selector.as_deref());
-    let universe = Universe::new(&h.initial);
+    // resource versions are opaque: an API server hands out numbers that gain a digit now and then
+    // (…99 -> …100). Three histories of four start just below such a point and cross it within
+    // their first events
+    let n0 = (h.initial.len() + h.pre_events.len()) as u64;
+    let rv_start = match h.id % 4 {
+        0 => 100,
+        1 => 1_000 - n0 - 1 - h.id % 5,
+        2 => 10_000_000_000 - n0 - 2 - h.id % 3,
+        _ => 100_000 - n0 - 1,
+    };
+    let universe = Universe::new_at(&h.initial, rv_start);
     universe.lock().stream_lag = h.stream_lag.unwrap_or(0);
     // every third history talks to a slow API server: list pages take 150 ms each
     universe.lock().list_delay_ms = if h.id % 3 == 1 { 150 } else { 0 };
